@@ -44,6 +44,8 @@ Deliver, inside {wt}/SEED/ :
  - seed_demo_test.go : a copy of the demonstration test
  - README.md : which clause of the property breaks, what is needed for it to manifest, and the exact commands you ran with their outcome (existing tests pass with the change; demo fails with the change; demo passes without it).
 Leave the worktree with your change applied. Keep your final answer short: the one-line description of the change and whether all three checks succeeded.
+
+Side findings: if, while exploring, you notice that the UNCHANGED code already violates the property in some situation, do not fix it; describe it in {wt}/SEED/SIDE_FINDINGS.md (what fails, how to reproduce, a small test if that is cheap) and mention it in one line of your final answer.
 """
 if earlier:
     text += "\n\nIMPORTANT: choose a DIFFERENT kind of change, in a different function, than these already-used ones:\n" + "\n".join(" - " + e for e in earlier) + "\n"
